@@ -384,6 +384,16 @@ def run_instance(ex, file_name, text, grid_index, r, workdir):
                 msg["sample"] = {"example": ex.name, "instance_text": text, "file_name": file_name, "width": w,
                                  "threads": t, "expected": case["expected_printed"], "verdict": verdict,
                                  "printed": payload if verdict == "held" else payload["facts"]["printed"]}
+        # narrowing fact for wrong objectives: does the program agree with the oracle when the width is so large that
+        # nothing is ever merged or truncated? yes => the defect lies in the relaxation / bound machinery of the example
+        # (merge, arc relaxation, rough upper bound); no => in its model or parser. Known findings are keyed on it.
+        wrong = [v for v in msg["violations"] if v["clause"] == "wrong_objective"]
+        if wrong and ex.name != "golomb":
+            _, verdict, payload, _ = execute(ex, case, 1000, 1 if ex.has_threads else None, workdir)
+            msg["runs"] += 1
+            agrees = verdict == "held"
+            for v in wrong:
+                v["facts"]["agrees_at_width_1000"] = agrees
     finally:
         if path:
             try:
